@@ -217,7 +217,17 @@ fn install_hook() {
     std::panic::set_hook(Box::new(|info| {
         let loc = info
             .location()
-            .map(|l| format!("{}:{}", l.file().trim_start_matches("/repo/"), l.line()))
+            .map(|l| {
+                let repo = std::env::var("GLUON_REPO").unwrap_or_else(|_| "/repo".into());
+                let f = l.file();
+                let f = f.strip_prefix(repo.as_str()).unwrap_or(f).trim_start_matches("/repo/").trim_start_matches('/');
+                // scratch checkouts used for seeded-change runs
+                let f = match f.find("/parser/src/").or_else(|| f.find("/base/src/")).or_else(|| f.find("/check/src/")).or_else(|| f.find("/vm/src/")) {
+                    Some(i) if f.starts_with("tmp/") => &f[i + 1..],
+                    _ => f,
+                };
+                format!("{}:{}", f, l.line())
+            })
             .unwrap_or_else(|| "?".into());
         let msg = if let Some(s) = info.payload().downcast_ref::<&str>() {
             s.to_string()
@@ -1081,6 +1091,106 @@ fn gen_expr(rng: &mut Rng, depth: u32, vars: &mut Vec<String>, out: &mut String)
     }
 }
 
+/// Multi-byte characters of every class that `char::is_whitespace` / `is_alphanumeric` /
+/// `is_numeric` distinguish, used by the deterministic decision-point family.
+const DECISION_CHARS: &[char] = &[
+    '\u{a0}',    // NO-BREAK SPACE (2 bytes, whitespace)
+    '\u{85}',    // NEXT LINE (2 bytes, whitespace, line terminator for str::lines)
+    '\u{1680}',  // OGHAM SPACE MARK (3 bytes, whitespace)
+    '\u{2003}',  // EM SPACE (3 bytes, whitespace)
+    '\u{2028}',  // LINE SEPARATOR (3 bytes, whitespace)
+    '\u{3000}',  // IDEOGRAPHIC SPACE (3 bytes, whitespace)
+    '\u{200b}',  // ZERO WIDTH SPACE (3 bytes, NOT whitespace)
+    '\u{feff}',  // BOM / ZERO WIDTH NO-BREAK SPACE (not whitespace)
+    '\u{e9}',    // é  letter, 2 bytes
+    '\u{3bb}',   // λ  letter, 2 bytes
+    '\u{6f22}',  // 漢 letter, 3 bytes
+    '\u{663}',   // ٣  decimal digit, 2 bytes
+    '\u{b2}',    // ²  numeric but not a decimal digit
+    '\u{20ac}',  // €  symbol, 3 bytes
+    '\u{2713}',  // ✓  symbol, 3 bytes
+    '\u{301}',   // combining acute accent
+    '\u{1f600}', // emoji, 4 bytes
+    '\u{10ffff}', // last code point, 4 bytes
+];
+
+/// (opening bytes, closing bytes) of every lexer construct; the character under test is placed
+/// 0..=3 ASCII bytes after the opening.
+const DECISION_CONSTRUCTS: &[(&str, &str)] = &[
+    ("//", ""),
+    ("///", ""),
+    ("/// ", ""),
+    ("////", ""),
+    ("/*", "*/"),
+    ("/**", "*/"),
+    ("/** ", " */"),
+    ("\"", "\""),
+    ("\"\\", "\""),
+    ("\"\\n", "\""),
+    ("r\"", "\""),
+    ("r#\"", "\"#"),
+    ("r##\"", "\"##"),
+    ("r#", ""),
+    ("'", "'"),
+    ("'\\", "'"),
+    ("'a", "'"),
+    ("1", ""),
+    ("12b", ""),
+    ("0x1F", ""),
+    ("0x", ""),
+    ("1.5", ""),
+    ("1.", ""),
+    ("-1", ""),
+    ("x", ""),
+    ("x1'", ""),
+    ("x!", ""),
+    ("import!", ""),
+    ("+", ""),
+    ("->", ""),
+    ("#", ""),
+    ("#Int", ""),
+    ("#Int+", ""),
+    ("#!", ""),
+    ("#!/bin/gluon", ""),
+    ("#[", "]"),
+    ("#[derive(", ")]"),
+    ("let x = ", ""),
+    ("{ x = 1, ", " }"),
+    ("", ""),
+];
+
+/// Deterministic cross product: construct x character x offset (0..=3 after the opening bytes) x
+/// what follows (end of input, the closing bytes, text then closing, a new line with more code),
+/// at the start of the input and after a first line.  Seed independent, part of every tier.
+fn gen_decision_points() -> Vec<String> {
+    let mut out = Vec::new();
+    let filler = ["", "a", "ab", "a b"];
+    for (open, close) in DECISION_CONSTRUCTS {
+        for &c in DECISION_CHARS {
+            for (k, fill) in filler.iter().enumerate() {
+                let head = format!("{}{}{}", open, fill, c);
+                // at the end of the input (right before EOF)
+                out.push(head.clone());
+                // directly before the construct's end
+                out.push(format!("{}{}", head, close));
+                // followed by text, then the end of the construct
+                out.push(format!("{}The answer z{}", head, close));
+                // followed by a new line with more code
+                out.push(format!("{}{}\nlet x = 42\nx", head, close));
+                if k == 0 {
+                    // not at the start of the input (shebang rule, column handling), indented
+                    out.push(format!("1\n{}", head));
+                    out.push(format!("let y =\n    {}{}\n    42\ny", head, close));
+                    // the character doubled, and right before the closing bytes after text
+                    out.push(format!("{}{}{}", head, c, close));
+                    out.push(format!("{}zz{}{}", open, c, close));
+                }
+            }
+        }
+    }
+    out
+}
+
 struct Seed {
     name: String,
     text: String,
@@ -1288,6 +1398,8 @@ fn panic_key(min: &str, site: &str) -> String {
     let has_non_ascii = !min.is_ascii();
     let class = if !has_non_ascii {
         format!("ascii:{}", hex(min.as_bytes()))
+    } else if min.starts_with("///") {
+        "non-ascii-after-doc-comment-marker".to_string()
     } else if min.starts_with('\'') {
         "non-ascii-in-char-literal".to_string()
     } else if min.starts_with('"') && min.contains('\\') {
@@ -1352,6 +1464,10 @@ fn main() {
         }
     }
     let n_corpus = inputs.len();
+    // deterministic family: multi-byte characters at every lexer decision point
+    for t in gen_decision_points() {
+        inputs.push(("decision-point".into(), t));
+    }
     let scale = |quick: usize, thorough_n: usize| -> usize {
         args.extra.get("scale").and_then(|s| s.parse::<f64>().ok()).map(|f| (quick as f64 * f) as usize).unwrap_or(if thorough { thorough_n } else { quick })
     };
@@ -1478,7 +1594,8 @@ fn main() {
     let mon_cases: Vec<(usize, bool, &str)> = inputs
         .iter()
         .enumerate()
-        .filter(|(i, _)| *i < n_corpus || i % mon_stride == 0)
+        // the deterministic lexer family is covered completely by the lexer tie; a sixth of it goes through the later stages
+        .filter(|(i, (fam, _))| *i < n_corpus || (if fam == "decision-point" { i % 6 == 0 } else { i % mon_stride == 0 }))
         .enumerate()
         .map(|(k, (i, (_, s)))| (i, i < n_corpus || k % prelude_stride == 0, s.as_str()))
         .collect();
@@ -1586,7 +1703,7 @@ fn main() {
             "monitor_with_prelude": mon_cases.iter().filter(|c| c.1).count(),
             "reported_errors_checked": reported_errors,
             "distinct_nontrivial": nontrivial,
-            "rule": "inputs of at least 2 bytes, distinct by content (FNV-1a of the bytes); families: corpus, random bytes forced to UTF-8 (lossy / weighted chars / ASCII), token soups with random indentation, random small expression trees, mutants (delete/duplicate/swap/insert tokens, re-indent, truncate at and inside tokens) of windows of std/*.glu, tests/pass/*.glu, examples/*.glu",
+            "rule": "inputs of at least 2 bytes, distinct by content (FNV-1a of the bytes); families: corpus, a deterministic cross product (lexer construct x multi-byte character class x offset 0..3 after the opening bytes x continuation: EOF / closing bytes / text / new line), random bytes forced to UTF-8 (lossy / weighted chars / ASCII), token soups with random indentation, random small expression trees, mutants (delete/duplicate/swap/insert tokens, re-indent, truncate at and inside tokens) of windows of std/*.glu, tests/pass/*.glu, examples/*.glu",
             "hist": hist.to_json(),
             "wall": {"lexer_s": t_lex, "monitor_s": t_mon, "nesting_s": t_nest},
         }),
